@@ -17,7 +17,7 @@ Import ListNotations.
 Local Open Scope Z_scope.
 
 Inductive cpu_res :=
-| CpuOk (next rflags : Z) (gpr xmm : list Z) (diffs : list (Z * Z))
+| CpuOk (next rflags : Z) (gpr xmm : list (Z * Z)) (diffs : list (Z * Z))     (* registers: (index, new value) of the changed ones *)
 | CpuSig (signo : Z)
 | CpuNone.
 
@@ -75,8 +75,15 @@ Definition nospec_mask (fm : Z) : cmpmask :=
 Definition x_init (sm : sample) (img : Z -> option Z) : xstate :=
   mkx (sm_gpr sm) [] (sm_xmm sm) (flags_of_rflags (sm_rflags sm)) (mkxm [] img).
 
-Definition cpu_obs (next rfl : Z) (gpr xmm : list Z) (diffs : list (Z * Z)) (m : mode) : observation :=
-  mkobs (Some next) (firstn (Z.to_nat (ngpr m)) gpr) (match m with M64 => xmm | M32 => [] end)
+Fixpoint patch (i : Z) (l : list Z) (d : list (Z * Z)) : list Z :=
+  match l with
+  | [] => []
+  | x :: t => (match alookup d i with Some v => v | None => x end) :: patch (i + 1) t d
+  end.
+(* a changed XMM register of a form whose XMM input was not transmitted shows up as a length mismatch *)
+Definition cpu_obs (sm : sample) (next rfl : Z) (gpr xmm : list (Z * Z)) (diffs : list (Z * Z)) (m : mode) : observation :=
+  mkobs (Some next) (patch 0 (sm_gpr sm) gpr)
+        (match sm_xmm sm, xmm with [], _ :: _ => [0] | l, _ => patch 0 l xmm end)
         (rfl_bit rfl 0) (rfl_bit rfl 6) (rfl_bit rfl 7) (rfl_bit rfl 11) (rfl_bit rfl 10) diffs.
 
 (* result codes of one sample (0 = fine); used by [diag] and collapsed by [sample_ok] *)
@@ -90,11 +97,11 @@ Definition sample_code (c : tcase) (g : cfg) (succ : list (Z * option expr)) (sm
               | _, INoSpec fm => Some (nospec_mask fm)
               | _, _ => None
               end in
-  let xm := match m with M64 => sm_xmm sm | M32 => [] end in
+  let xm := sm_xmm sm in
   (* 1. the specification against the processor *)
   let spec_cpu :=
     match sp, sm_cpu sm with
-    | XNext s' ip, CpuOk n rfl gp xm' d => if obs_agree img (x_mask s') (x_obs s' ip) (cpu_obs n rfl gp xm' d m) then 0 else 1
+    | XNext s' ip, CpuOk n rfl gp xm' d => if obs_agree img (x_mask s') (x_obs s' ip) (cpu_obs sm n rfl gp xm' d m) then 0 else 1
     | XNext _ _, CpuSig _ => 2
     | XFault, CpuOk _ _ _ _ _ => 3
     | _, _ => 0
@@ -117,11 +124,11 @@ Definition sample_code (c : tcase) (g : cfg) (succ : list (Z * option expr)) (sm
   | RunFuel => 12
   | RunAmbiguous => 13
   | RunOk st nx =>
-      match il_obs m st nx (length mem0) with
+      match il_obs m (length xm) st nx (length mem0) with
       | None => 14
       | Some o =>
           let vs_cpu := match sm_cpu sm, mask with
-                        | CpuOk n rfl gp xm' d, Some k => obs_agree img k o (cpu_obs n rfl gp xm' d m)
+                        | CpuOk n rfl gp xm' d, Some k => obs_agree img k o (cpu_obs sm n rfl gp xm' d m)
                         | _, _ => true
                         end in
           let vs_spec := match sp with
